@@ -124,7 +124,10 @@ class ComparisonResult:
     for name in utils.get_output_tensor_names(
         self._reference_model, signature_key
     ):
-      output_tensor_results[name] = result.pop(name)
+      # A tensor can be listed more than once in the signature (e.g., returned
+      # under two names, or a graph input that is also an output).
+      if name in result:
+        output_tensor_results[name] = result.pop(name)
 
     constant_tensor_results = {}
     # Only get constant tensors from the main subgraph of the signature.
